@@ -137,6 +137,22 @@ def run_history(c):
     e = Experiment(group=labels_of(c), response=c["resp"], covariate=cov, randomizer=R)
     init = snap(e)
     steps = []
+    def probe():
+        """built-in test functions on the CURRENT assignment vs their definitions (column 0)"""
+        g = back(c, e.group); col = [float(r[0]) for r in c["resp"]]
+        labs = sorted(set(g)); out = []
+        for name, fn in (("mean_diff", Experiment.TestFunc.mean_diff), ("one_way_anova", Experiment.TestFunc.one_way_anova)):
+            if name == "mean_diff" and len(labs) != 2:
+                continue
+            got = guarded(lambda: float(Experiment.make_test_array(fn, [0])[0](e)))
+            if name == "mean_diff":
+                want = float(np.mean([col[i] for i in range(len(g)) if g[i] == labs[0]]) - np.mean([col[i] for i in range(len(g)) if g[i] == labs[1]]))
+            else:
+                m = float(np.mean(col)); want = float(sum((np.mean([col[i] for i in range(len(g)) if g[i] == k]) - m) ** 2 * g.count(k) for k in labs))
+            if got[0] != "ok" or abs(got[1] - want) > 1e-9 * (1 + abs(want)):
+                out.append([name, list(got), want, g])
+        return out
+    probes = [probe()]
     for op in c["ops"]:
         cur = e.randomizer.prng
         nforks_before = {id(t): len(t.forks) for t in tapes}
@@ -162,11 +178,12 @@ def run_history(c):
                       "reseed_idx": tapes.index(seed) if seed is not None else None, "fork": fork, "gen_is": tapes.index(e.randomizer.prng)})
         if r[0] != "ok":
             break
+        probes.append(probe())
     # tapes are complete now: freeze their full answer lists
     for s in steps:
         s["fork_answers"] = [a for (_, a) in s["fork"].log] if s["fork"] is not None else []
         del s["fork"]
-    return {"steps": steps, "tapes": [[a for (_, a) in t.log] for t in tapes]}
+    return {"steps": steps, "tapes": [[a for (_, a) in t.log] for t in tapes], "probes": probes}
 
 
 # ------------------------------------------------------------------------------------------------
@@ -208,6 +225,10 @@ def oracle(c, o):
             return {"why": f"make_test_array(func, indices)[i](data) = {v} differs from func(data, indices[i]) = {r}", "cls": "testfunc:make_test_array"}
         return None
     g0 = c["g"]
+    for k, pr in enumerate(o.get("probes", [])):
+        if pr:
+            name, got, want, g = pr[0]
+            return {"why": f"after {k} operation(s) TestFunc.{name} on the current assignment {g} returns {got}, its definition gives {want}", "cls": f"testfunc:{name}:stale"}
     for k, s in enumerate(o["steps"]):
         op = c["ops"][k]
         if s["out"][0] != "ok":
